@@ -676,6 +676,13 @@ mkkey(const char *mon, const impl_t *im, const char *curve)
 	return keybuf;
 }
 
+static const char *
+mkkeyc(const char *mon, const impl_t *im, const char *curve, const char *cls)
+{
+	snprintf(keybuf, sizeof keybuf, "C11:%s:%s.%s:%s", mon, im->name, curve, cls);
+	return keybuf;
+}
+
 static void
 nist_consts(const impl_t *im, curve_t *c)
 {
@@ -768,7 +775,31 @@ nist_muladd_case(const impl_t *im, curve_t *c, const unsigned char *abuf, const 
 	xl = enc_scalar(xb, x, c, kx);
 	yl = enc_scalar(yb, y, c, ky);
 	if (BN_is_zero(x) || BN_is_zero(y)) {
-		rok = 0;   /* documented: "If either integer is zero, then an error is reported" */
+		/*
+		 * bearssl_ec.h: multipliers "MUST be non-zero" and "If either
+		 * integer is zero, then an error is reported".  Mathematically
+		 * 0*A + y*B = y*B.  Either answer is accepted here: an error, or
+		 * success with the correct point; success with another point is
+		 * a violation under both readings.
+		 */
+		const EC_POINT *PP = BN_is_zero(x) ? (B ? B : EC_GROUP_get0_generator(c->g)) : A;
+		const BIGNUM *kk = BN_is_zero(x) ? y : x;
+		r = call_muladd(im->impl, got, abuf, bbuf, c->ptlen, xb, xl, yb, yl, c->id);
+		vf_stat("cmp_muladd", 1);
+		vf_stat("cmp_muladd_zero_multiplier", 1);
+		vf_distinct("arith_cfg", "%s %s muladd %s %s", im->name, c->name, cls, bbuf ? "B" : "G");
+		if (r == 0) {
+			vf_stat("obs_muladd_zero_multiplier_ret0", 1);
+		} else if (!BN_is_zero(kk) && ref_mul(c, ref, PP, kk) && memcmp(got, ref, c->ptlen) == 0) {
+			vf_stat("obs_muladd_zero_multiplier_ret1_correct", 1);
+		} else {
+			vf_stat("obs_muladd_zero_multiplier_ret1_wrong", 1);
+			vf_viol(mkkey("muladd-zero-multiplier-wrong-result", im, c->name),
+				"muladd() with a zero multiplier returned success (documented: error) and a point that is not x*A+y*B",
+				"seed=%lld i=%lld cls=%s ret=%u A=%s B=%s x=%s y=%s got=%s", g_seed, idx, cls, r,
+				vf_hexs(abuf, c->ptlen), bbuf ? vf_hexs(bbuf, c->ptlen) : "G", vf_hexs(xb, xl), vf_hexs(yb, yl), vf_hexs(got, c->ptlen));
+		}
+		return;
 	} else {
 		rok = ref_muladd(c, ref, A, x, B ? B : EC_GROUP_get0_generator(c->g), y);
 	}
@@ -783,8 +814,8 @@ nist_muladd_case(const impl_t *im, curve_t *c, const unsigned char *abuf, const 
 	if (!rok) {
 		vf_stat("cmp_muladd_must_fail", 1);
 		if (r != 0) {
-			vf_viol(mkkey(BN_is_zero(x) || BN_is_zero(y) ? "muladd-zero-accepted" : "muladd-infinity-accepted", im, c->name),
-				"muladd() returned success although the result is the point at infinity / a multiplier is zero",
+			vf_viol(mkkey("muladd-infinity-accepted", im, c->name),
+				"muladd() returned success although the result is the point at infinity",
 				"seed=%lld i=%lld cls=%s ret=%u A=%s B=%s x=%s y=%s", g_seed, idx, cls, r,
 				vf_hexs(abuf, c->ptlen), bbuf ? vf_hexs(bbuf, c->ptlen) : "G", vf_hexs(xb, xl), vf_hexs(yb, yl));
 		}
@@ -914,7 +945,7 @@ nist_invalid_case(const impl_t *im, curve_t *c, long long idx)
 	if (where == 0) {
 		r = call_mul(im->impl, NULL, bad, l, kb, kl, c->id);
 		if (r != 0) {
-			vf_viol(mkkey("mul-invalid-accepted", im, c->name), "mul() accepted an encoding that is not a valid uncompressed point",
+			vf_viol(mkkeyc("mul-invalid-accepted", im, c->name, cn), "mul() accepted an encoding that is not a valid uncompressed point",
 				"seed=%lld i=%lld cls=%s ret=%u G=%s k=%s", g_seed, idx, cn, r, vf_hexs(bad, l), vf_hexs(kb, kl));
 		}
 	} else if (where == 1) {
@@ -923,7 +954,7 @@ nist_invalid_case(const impl_t *im, curve_t *c, long long idx)
 		if (l != c->ptlen) useg = 1;   /* B must have the common length */
 		r = call_muladd(im->impl, NULL, bad, useg ? NULL : wb, l, kb, kl, yb, yl, c->id);
 		if (r != 0) {
-			vf_viol(mkkey("muladd-invalid-accepted", im, c->name), "muladd() accepted an invalid point A",
+			vf_viol(mkkeyc("muladd-invalid-accepted", im, c->name, cn), "muladd() accepted an invalid point A",
 				"seed=%lld i=%lld cls=%s ret=%u A=%s x=%s y=%s", g_seed, idx, cn, r, vf_hexs(bad, l), vf_hexs(kb, kl), vf_hexs(yb, yl));
 		}
 	} else {
@@ -939,7 +970,7 @@ nist_invalid_case(const impl_t *im, curve_t *c, long long idx)
 			r = call_muladd(im->impl, NULL, wb, bad, l, kb, kl, yb, yl, c->id);
 		}
 		if (r != 0) {
-			vf_viol(mkkey("muladd-invalid-accepted", im, c->name), "muladd() accepted an invalid point B",
+			vf_viol(mkkeyc("muladd-invalid-accepted", im, c->name, cn), "muladd() accepted an invalid point B",
 				"seed=%lld i=%lld cls=%s ret=%u B=%s x=%s y=%s", g_seed, idx, cn, r, vf_hexs(bad, l), vf_hexs(kb, kl), vf_hexs(yb, yl));
 		}
 	}
@@ -1371,7 +1402,7 @@ arith_c25519(const impl_t *im, long long cases)
 			vf_stat("cmp_invalid_point", 1);
 			vf_distinct("arith_cfg", "%s C25519 invalid len%zu", im->name, l);
 			if (r != 0) {
-				vf_viol(mkkey("mul-invalid-accepted", im, "C25519"), "mul() accepted a point of the wrong length", "Glen=%zu ret=%u", l, r);
+				vf_viol(mkkeyc("mul-invalid-accepted", im, "C25519", "wrong-length"), "mul() accepted a point of the wrong length", "Glen=%zu ret=%u", l, r);
 			}
 		} else if (op < 97) {
 			/* over-long scalar: executed, not judged */
@@ -1519,7 +1550,15 @@ judge_values(ecdsa_env *E, const impl_t *im, const ecdsa_t *ev, const unsigned c
 	vf_distinct("vrfy_hashlen", "%s %zu", c->name, hl);
 	if (want) vf_stat("cmp_vrfy_accept", 1); else vf_stat("cmp_vrfy_reject", 1);
 	if ((got == 1) != (want == 1) || got > 1) {
-		vf_viol(mkkey2(want ? "vrfy-valid-rejected" : "vrfy-invalid-accepted", im, ev, c->name),
+		BIGNUM *e = BN_new();
+		int ez;
+		ref_bits2int(e, hv, hl, c->nbits);
+		BN_mod(e, e, c->n, bctx);
+		ez = BN_is_zero(e);
+		BN_free(e);
+		snprintf(keybuf2, sizeof keybuf2, "C11:%s:%s.%s.%s:%s", want ? "vrfy-valid-rejected" : "vrfy-invalid-accepted",
+			ev->name, im->name, c->name, ez ? "e-zero" : "general");
+		vf_viol(keybuf2,
 			want ? "verifier rejected a signature that OpenSSL accepts" : "verifier accepted a signature that OpenSSL rejects",
 			"seed=%lld i=%lld cls=%s ret=%u Q=%s hash=%s sig=%s", g_seed, idx, cls, got,
 			vf_hexs(q, ql), vf_hexs(hv, hl), vf_hexs(sig, sl));
@@ -1535,7 +1574,8 @@ judge_must_reject(ecdsa_env *E, const impl_t *im, const ecdsa_t *ev, const unsig
 	vf_stat("cmp_vrfy_must_reject", 1);
 	vf_distinct("ecdsa_cfg", "vrfy %s %s %s %s must-reject", ev->name, im->name, E->c->name, cls);
 	if (got != 0) {
-		vf_viol(mkkey2("vrfy-malformed-accepted", im, ev, E->c->name),
+		snprintf(keybuf2, sizeof keybuf2, "C11:vrfy-malformed-accepted:%s.%s.%s:%s", ev->name, im->name, E->c->name, cls);
+		vf_viol(keybuf2,
 			"verifier accepted a malformed signature or public key",
 			"seed=%lld i=%lld cls=%s ret=%u Q=%s hash=%s sig=%s", g_seed, idx, cls, got,
 			vf_hexs(q, ql), vf_hexs(hv, hl), vf_hexs(sig, sl));
@@ -1874,3 +1914,348 @@ run_ecdsa(curve_t *c, long long cases, int nverify, int nmut)
 	}
 }
 
+/* ================================================================== */
+/* raw <-> asn1 conversions */
+
+static size_t
+call_r2a(unsigned char *out, const unsigned char *raw, size_t rl)
+{
+	/* documented: in place, enlarges by no more than 9 bytes */
+	unsigned char *b = malloc(rl + 9);
+	size_t l;
+	memset(b, 0xA5, rl + 9);
+	memcpy(b, raw, rl);
+	l = br_ecdsa_raw_to_asn1(b, rl);
+	if (l <= rl + 9) memcpy(out, b, l);
+	free(b);
+	vf_stat("lib_calls", 1);
+	return l;
+}
+
+static size_t
+call_a2r(unsigned char *out, const unsigned char *der, size_t dl)
+{
+	/* documented: in place, result shorter than twice the source */
+	size_t cap = dl ? 2 * dl : 1, l;
+	unsigned char *b = malloc(cap);
+	memset(b, 0xA5, cap);
+	memcpy(b, der, dl);
+	l = br_ecdsa_asn1_to_raw(b, dl);
+	if (l <= cap) memcpy(out, b, l);
+	free(b);
+	vf_stat("lib_calls", 1);
+	return l;
+}
+
+static void
+run_conv(long long cases)
+{
+	long long i;
+	BIGNUM *r = BN_new(), *s = BN_new();
+	for (i = 0; i < cases; i ++) {
+		unsigned char rb[130], sb[130], raw[300], der[300], got[600], back[600], exp[300];
+		size_t rlen, slen, L, dl, gl, bl, z;
+		uint32_t shape;
+		if ((i % g_nworkers) != g_worker) continue;
+		rng_case("conv", "", "", i);
+		vf_stat("cases", 1);
+		/* integers of 0..124 significant bytes; curve-sized ones favoured */
+		shape = vf_below(&rng, 10);
+		if (shape < 5) {
+			static const size_t cl[3] = { 32, 48, 66 };
+			rlen = slen = cl[vf_below(&rng, 3)];
+		} else {
+			rlen = vf_below(&rng, 125);
+			slen = (vf_u32(&rng) & 1) ? rlen : vf_below(&rng, 125);
+		}
+		vf_bytes(&rng, rb, rlen); vf_bytes(&rng, sb, slen);
+		if (rlen && (vf_u32(&rng) & 1)) rb[0] |= 0x80;
+		if (slen && (vf_u32(&rng) & 1)) sb[0] |= 0x80;
+		if (rlen == 66 && shape < 5) { rb[0] &= 1; sb[0] &= 1; }
+		if (rlen > 1 && vf_below(&rng, 8) == 0) memset(rb, 0, 1 + vf_below(&rng, (uint32_t)rlen - 1));
+		if (slen > 1 && vf_below(&rng, 8) == 0) memset(sb, 0, 1 + vf_below(&rng, (uint32_t)slen - 1));
+		BN_bin2bn(rb, (int)rlen, r); BN_bin2bn(sb, (int)slen, s);
+		z = min_common_len(r, s);
+		L = rlen > slen ? rlen : slen;
+		if (vf_below(&rng, 4) == 0 && L < 124) L += vf_below(&rng, (uint32_t)(124 - L) + 1);
+		if (L > 124) L = 124;
+		if (L < z) L = z;
+
+		/* raw -> asn1 must be the canonical DER */
+		enc_raw(raw, r, s, L);
+		dl = ref_der(der, sizeof der, r, s);
+		gl = call_r2a(got, raw, 2 * L);
+		vf_stat("cmp_conv_r2a", 1);
+		vf_distinct("conv_cfg", "r2a L%zu", L);
+		if (gl != dl || memcmp(got, der, dl) != 0) {
+			vf_viol("C11:conv:raw_to_asn1-not-der", "br_ecdsa_raw_to_asn1 output differs from i2d_ECDSA_SIG",
+				"seed=%lld i=%lld raw=%s ret=%zu want=%s", g_seed, i, vf_hexs(raw, 2 * L), gl, vf_hexs(der, dl));
+			continue;
+		}
+		if (gl > 2 * L + 9) vf_viol("C11:conv:raw_to_asn1-growth", "enlarged by more than 9 bytes", "L=%zu out=%zu", L, gl);
+		/* asn1 -> raw: minimal common length, values preserved */
+		bl = call_a2r(back, der, dl);
+		if (z == 0) {
+			vf_stat("unjudged_conv_both_zero", 1);
+		} else if (dl < 8) {
+			vf_stat("unjudged_conv_short_der", 1);
+		} else {
+			enc_raw(exp, r, s, z);
+			vf_stat("cmp_conv_a2r", 1);
+			if (bl != 2 * z || memcmp(back, exp, 2 * z) != 0) {
+				vf_viol("C11:conv:asn1_to_raw-values", "br_ecdsa_asn1_to_raw lost or altered the integers",
+					"seed=%lld i=%lld der=%s ret=%zu want=%s", g_seed, i, vf_hexs(der, dl), bl, vf_hexs(exp, 2 * z));
+				continue;
+			}
+			if (bl >= 2 * dl) vf_viol("C11:conv:asn1_to_raw-growth", "raw length not below twice the asn1 length", "dl=%zu out=%zu", dl, bl);
+			/* and back again: lossless */
+			gl = call_r2a(got, back, bl);
+			vf_stat("cmp_conv_roundtrip", 1);
+			if (gl != dl || memcmp(got, der, dl) != 0) {
+				vf_viol("C11:conv:roundtrip", "raw_to_asn1(asn1_to_raw(der)) != der", "seed=%lld i=%lld der=%s", g_seed, i, vf_hexs(der, dl));
+			}
+		}
+		/* odd raw length: documented error */
+		if ((i & 3) == 0) {
+			size_t ol = 2 * L + 1 - 2 * (size_t)(L > 0 && (i & 4));
+			raw[2 * L] = 0;
+			gl = call_r2a(got, raw, ol);
+			vf_stat("cmp_conv_must_fail", 1);
+			if (gl != 0) vf_viol("C11:conv:raw_to_asn1-odd-accepted", "odd raw length not reported as an error", "len=%zu ret=%zu", ol, gl);
+		}
+		/* structurally invalid DER: documented error */
+		if (dl >= 8 && dl <= 250) {
+			unsigned char bad[320];
+			int kind;
+			const char *name = "?";
+			size_t l = der_break((int)vf_below(&rng, N_DERBREAK), der, dl, bad, &kind, &name);
+			if (kind == 0) {
+				gl = call_a2r(got, bad, l);
+				vf_stat("cmp_conv_must_fail", 1);
+				vf_distinct("conv_cfg", "a2r %s", name);
+				if (gl != 0) vf_viol("C11:conv:asn1_to_raw-malformed-accepted", "invalid ASN.1 structure not reported as an error",
+					"seed=%lld i=%lld cls=%s der=%s ret=%zu", g_seed, i, name, vf_hexs(bad, l), gl);
+			} else if (kind == 1) {
+				gl = call_a2r(got, bad, l);
+				vf_stat("unjudged_conv_lenient", 1);
+				vf_distinct("conv_cfg", "a2r %s %s", name, gl ? "accepted" : "rejected");
+				/* if accepted, the integers must be the same ones */
+				if (gl != 0 && z != 0) {
+					enc_raw(exp, r, s, z);
+					vf_stat("cmp_conv_a2r", 1);
+					if (gl != 2 * z || memcmp(got, exp, gl) != 0) {
+						vf_viol("C11:conv:asn1_to_raw-values", "lenient form decoded to different integers",
+							"seed=%lld i=%lld cls=%s der=%s", g_seed, i, name, vf_hexs(bad, l));
+					}
+				}
+			}
+		}
+		/* random bytes: sanitizers only, plus the growth bound */
+		if ((i & 7) == 1) {
+			unsigned char junk[140];
+			size_t jl = vf_below(&rng, 140);
+			vf_bytes(&rng, junk, jl);
+			if (jl > 4 && (vf_u32(&rng) & 1)) { junk[0] = 0x30; junk[1] = (unsigned char)(jl - 2); junk[2] = 2; }
+			gl = call_a2r(got, junk, jl);
+			vf_stat("conv_junk", 1);
+			if (gl > (jl ? 2 * jl : 1)) vf_viol("C11:conv:asn1_to_raw-growth", "raw length above twice the asn1 length", "in=%zu out=%zu", jl, gl);
+		}
+	}
+	BN_free(r); BN_free(s);
+}
+
+/* ================================================================== */
+/* key generation and public key computation */
+
+static void
+run_keygen(long long cases)
+{
+	long long i;
+	int j, ci;
+	br_hmac_drbg_context drbg;
+	unsigned char seedb[32];
+
+	for (j = 0; j < nimpl; j ++) {
+		const impl_t *im = &impls[j];
+		if ((j % g_nworkers) != g_worker) continue;
+		for (ci = 0; ci < 4; ci ++) {
+			int cid = ci < 3 ? curves[ci].id : BR_EC_curve25519;
+			const char *cname = ci < 3 ? curves[ci].name : "C25519";
+			size_t need, publen;
+			long long n = cases;
+			if (!impl_supports(im->impl, cid)) {
+				/* documented: returns zero */
+				br_ec_private_key sk0;
+				unsigned char kb0[BR_EC_KBUF_PRIV_MAX_SIZE];
+				unsigned char one[1] = { 1 };
+				rng_case("keygen", im->name, cname, -1);
+				vf_bytes(&rng, seedb, sizeof seedb);
+				br_hmac_drbg_init(&drbg, &br_sha256_vtable, seedb, sizeof seedb);
+				vf_stat("cmp_unsupported_curve", 2);
+				if (br_ec_keygen(&drbg.vtable, im->impl, &sk0, kb0, cid) != 0)
+					vf_viol(mkkey("keygen-unsupported-curve", im, cname), "br_ec_keygen did not return 0 for an unsupported curve", "-");
+				sk0.curve = cid; sk0.x = one; sk0.xlen = 1;
+				if (br_ec_compute_pub(im->impl, NULL, NULL, &sk0) != 0)
+					vf_viol(mkkey("pubkey-unsupported-curve", im, cname), "br_ec_compute_pub did not return 0 for an unsupported curve", "-");
+				continue;
+			}
+			/* P-521 on the i15 code is slow: fewer keys */
+			if (ci == 2) n = (n + 3) / 4;
+			for (i = 0; i < n; i ++) {
+				br_ec_private_key sk;
+				br_ec_public_key pk;
+				unsigned char *kbuf, *pbuf, ref[140];
+				size_t kl, pl, ol = 0;
+				const unsigned char *ord;
+				BIGNUM *x = BN_new(), *o = BN_new();
+
+				rng_case("keygen", im->name, cname, i);
+				vf_stat("cases", 1);
+				vf_bytes(&rng, seedb, sizeof seedb);
+				br_hmac_drbg_init(&drbg, (i & 1) ? &br_sha256_vtable : &br_sha1_vtable, seedb, sizeof seedb);
+				need = br_ec_keygen(&drbg.vtable, im->impl, NULL, NULL, cid);
+				if (need == 0 || need > BR_EC_KBUF_PRIV_MAX_SIZE) {
+					vf_viol(mkkey("keygen-length", im, cname), "br_ec_keygen(kbuf=NULL) length out of the documented range", "len=%zu", need);
+					BN_free(x); BN_free(o);
+					break;
+				}
+				kbuf = malloc(need);
+				memset(&sk, 0, sizeof sk);
+				kl = br_ec_keygen(&drbg.vtable, im->impl, (i & 2) ? NULL : &sk, kbuf, cid);
+				vf_stat("lib_calls", 2);
+				if (i & 2) { sk.curve = cid; sk.x = kbuf; sk.xlen = kl; }
+				ord = im->impl->order(cid, &ol);
+				BN_bin2bn(ord, (int)ol, o);
+				vf_stat("cmp_keygen_range", 1);
+				vf_distinct("keygen_cfg", "%s %s", im->name, cname);
+				if (kl != need || sk.curve != cid || sk.x != kbuf || sk.xlen != kl) {
+					vf_viol(mkkey("keygen-fields", im, cname), "br_ec_keygen length / key structure fields inconsistent",
+						"ret=%zu need=%zu curve=%d xlen=%zu", kl, need, sk.curve, sk.xlen);
+				} else {
+					BN_bin2bn(kbuf, (int)kl, x);
+					if (BN_is_zero(x) || BN_cmp(x, o) >= 0) {
+						vf_viol(mkkey("keygen-range", im, cname), "generated private key not in [1, order-1]",
+							"seed=%lld i=%lld x=%s", g_seed, i, vf_hexs(kbuf, kl));
+					}
+					/* public key */
+					publen = br_ec_compute_pub(im->impl, NULL, NULL, &sk);
+					if (publen == 0 || publen > BR_EC_KBUF_PUB_MAX_SIZE) {
+						vf_viol(mkkey("pubkey-length", im, cname), "br_ec_compute_pub(kbuf=NULL) length out of range", "len=%zu", publen);
+					} else {
+						pbuf = malloc(publen);
+						memset(&pk, 0, sizeof pk);
+						pl = br_ec_compute_pub(im->impl, (i & 4) ? NULL : &pk, pbuf, &sk);
+						vf_stat("lib_calls", 2);
+						if (i & 4) { pk.curve = cid; pk.q = pbuf; pk.qlen = pl; }
+						vf_stat("cmp_pubkey", 1);
+						if (ci < 3) {
+							int okr = ref_mul(&curves[ci], ref, EC_GROUP_get0_generator(curves[ci].g), x);
+							HASSERT(okr, "pub-ref");
+							if (publen != curves[ci].ptlen) vf_viol(mkkey("pubkey-length", im, cname), "public key length differs from the point length", "len=%zu", publen);
+						} else {
+							unsigned char nine[32];
+							memset(nine, 0, 32); nine[0] = 9;
+							ref_c25519(ref, kbuf, kl, nine);
+						}
+						if (pl != publen || pk.curve != cid || pk.q != pbuf || pk.qlen != pl || memcmp(pbuf, ref, pl) != 0) {
+							vf_viol(mkkey("pubkey-value", im, cname), "br_ec_compute_pub differs from x*G of the reference",
+								"seed=%lld i=%lld x=%s got=%s want=%s", g_seed, i, vf_hexs(kbuf, kl), vf_hexs(pbuf, pl < 140 ? pl : 140), vf_hexs(ref, publen));
+						}
+						if (i == 0) vf_sample("{\"op\":\"keygen\",\"impl\":\"%s\",\"curve\":\"%s\",\"x\":\"%s\",\"pub\":\"%s\"}",
+							im->name, cname, vf_hexs(kbuf, kl), vf_hexs(pbuf, pl < 140 ? pl : 140));
+						free(pbuf);
+					}
+				}
+				free(kbuf);
+				BN_free(x); BN_free(o);
+			}
+		}
+	}
+}
+
+/* ================================================================== */
+
+static double
+now(void)
+{
+	struct timespec ts;
+	clock_gettime(CLOCK_MONOTONIC, &ts);
+	return (double)ts.tv_sec + 1e-9 * (double)ts.tv_nsec;
+}
+
+/* development aid: cost of one mul per implementation x curve (stderr only) */
+static void
+run_time(void)
+{
+	int j, ci;
+	for (j = 0; j < nimpl; j ++) for (ci = 0; ci < 4; ci ++) {
+		int cid = ci < 3 ? curves[ci].id : BR_EC_curve25519;
+		unsigned char g[140], k[66];
+		size_t gl, ol;
+		const unsigned char *gp;
+		double t0;
+		int n;
+		if (!impl_supports(impls[j].impl, cid)) continue;
+		gp = impls[j].impl->generator(cid, &gl);
+		impls[j].impl->order(cid, &ol);
+		memset(k, 0x55, sizeof k); k[0] = 0;
+		t0 = now();
+		for (n = 0; n < 5; n ++) { memcpy(g, gp, gl); impls[j].impl->mul(g, gl, k, ol, cid); }
+		fprintf(stderr, "%-12s %-7s mul %.2f ms\n", impls[j].name, ci < 3 ? curves[ci].name : "C25519", (now() - t0) * 200.0);
+	}
+}
+
+int
+main(int argc, char **argv)
+{
+	const char *mode = vf_arg(argc, argv, "--mode", "arith");
+	const char *iname = vf_arg(argc, argv, "--impl", "prime_i15");
+	const char *cname = vf_arg(argc, argv, "--curve", "P256");
+	long long cases = vf_argi(argc, argv, "--cases", 10);
+
+	g_seed = vf_argi(argc, argv, "--seed", 1);
+	g_worker = vf_argi(argc, argv, "--worker", 0);
+	g_nworkers = vf_argi(argc, argv, "--nworkers", 1);
+	g_thorough = (int)vf_argi(argc, argv, "--thorough", 0);
+	if (g_nworkers < 1) g_nworkers = 1;
+	vf_max_samples = 2;
+	bctx = BN_CTX_new();
+	init_impls();
+	init_curves();
+	init_25519();
+	{
+		/* which implementation is the default one */
+		const br_ec_impl *d = br_ec_get_default();
+		int j;
+		for (j = 0; j < nimpl; j ++) if (impls[j].impl == d) vf_distinct("default_impl", "%s", impls[j].name);
+	}
+
+	if (!strcmp(mode, "arith")) {
+		const impl_t *im = find_impl(iname);
+		if (im == NULL) {
+			/* not available on this CPU: nothing to observe */
+			vf_stat("impl_not_available", 1);
+		} else if (!strcmp(cname, "C25519")) {
+			HASSERT(impl_supports(im->impl, BR_EC_curve25519), "curve-not-supported");
+			arith_c25519(im, cases);
+		} else {
+			curve_t *c = find_curve(cname);
+			HASSERT(c != NULL && impl_supports(im->impl, c->id), "curve-not-supported");
+			arith_nist(im, c, cases);
+		}
+	} else if (!strcmp(mode, "ecdsa")) {
+		curve_t *c = find_curve(cname);
+		HASSERT(c != NULL, "curve");
+		run_ecdsa(c, cases, (int)vf_argi(argc, argv, "--nverify", 3), (int)vf_argi(argc, argv, "--nmut", 4));
+	} else if (!strcmp(mode, "conv")) {
+		run_conv(cases);
+	} else if (!strcmp(mode, "keygen")) {
+		run_keygen(cases);
+	} else if (!strcmp(mode, "time")) {
+		run_time();
+	} else {
+		HASSERT(0, "mode");
+	}
+	vf_done();
+	return 0;
+}
